@@ -502,6 +502,8 @@ def dev_unit(name, probe=False, seed=None, rlimit=None):
     print(f"  file {ur.path}  verified={ur.verified} errors={ur.errors} smt={ur.smt_ms}ms total={ur.total_ms}ms wall={ur.wall:.1f}s")
     print(f"  rewrites fired: {ur.fired}")
     full = os.environ.get("VERIF_FULL")
+    if ur.status == "undecided" and not full:
+        ur.diags = [d for d in ur.diags if d.kind is None][:3]
     for d in (ur.diags if full else ur.diags[:10]):
         print(f"- [{d.kind}] {d.obligation(name)}  props={d.props(ur)} src={d.src}")
         r = d.rendered if full else "\n".join(l[:230] for l in d.rendered.split("\n")[:14])
@@ -534,6 +536,28 @@ def main():
             if x.startswith("--rlimit="):
                 rl = float(x[9:])
         return dev_unit(a[1], probe="--probe" in a, seed=seed, rlimit=rl)
+    if a[0] == "canaries":
+        mod = load_unit(a[1])
+        base = run_unit(a[1])
+        base_obs = set(d.obligation(a[1]) for d in base.diags)
+        rc = 0
+        def one(c):
+            src = open(os.path.join(REPO, c["file"])).read()
+            if c["old"] not in src:
+                return c, None
+            return c, run_unit(a[1], overlay={c["file"]: src.replace(c["old"], c["new"], 1)}, tag="canary_" + c["name"], multiple_errors=5)
+        with concurrent.futures.ThreadPoolExecutor(max_workers=8) as ex:
+            for c, r in ex.map(one, [c for c in getattr(mod, "CANARIES", []) if len(a) < 3 or c["name"] in a[2:]]):
+                if r is None:
+                    print(f"{c['name']}: pattern absent"); continue
+                new = [d for d in r.diags if d.obligation(a[1]) not in base_obs and d.kind]
+                if r.status == "undecided":
+                    print(f"{c['name']}: UNDECIDED {r.reason[:200]}")
+                elif new:
+                    print(f"{c['name']}: killed by {len(new)}: " + "; ".join(sorted(set(d.obligation(a[1]) for d in new))[:4]))
+                else:
+                    print(f"{c['name']}: SURVIVED"); rc = 1
+        return rc
     if a[0] == "replay":
         body = json.load(open(a[1]))
         print(json.dumps(body.get("failed_obligations"), indent=1)[:4000])
